@@ -44,21 +44,21 @@ def property_units(prop):
     own = [u for u in reg.values() if prop in u.props]
     if not own:
         return [], reg
-    home = {}
+    home = {}      # a function may be proved against several contracts in several units: all of them are its home
     for u in reg.values():
         for f in u.prove:
-            home.setdefault(f.path, u)
+            home.setdefault(f.path, []).append(u)
     todo = list(own)
     seen = {u.name for u in own}
     out = list(own)
     while todo:
         u = todo.pop()
         for f in u.use:
-            h = home.get(f.path)
-            if h is not None and h.name not in seen:
-                seen.add(h.name)
-                out.append(h)
-                todo.append(h)
+            for h in home.get(f.path, []):
+                if h.name not in seen:
+                    seen.add(h.name)
+                    out.append(h)
+                    todo.append(h)
         for nm in getattr(u, 'also', []):
             h = reg.get(nm)
             if h is not None and h.name not in seen:
